@@ -650,7 +650,7 @@ func genCfgMutant() *rapid.Generator[CfgCase] {
 	grammar := genCfgCase()
 	return rapid.Custom(func(t *rapid.T) CfgCase {
 		var c CfgCase
-		if k := rapid.IntRange(0, len(seeds)+2).Draw(t, "seed"); k < len(seeds) {
+		if k := rapid.IntRange(0, 2*len(seeds)-1).Draw(t, "seed"); k < len(seeds) {
 			c = CfgCase{Src: seeds[k]}
 		} else {
 			c = grammar.Draw(t, "generated-seed")
